@@ -320,6 +320,30 @@ def epschain_family(limit=None, rng_seed=4770):
     return out
 
 
+def ctx_family():
+    """The LR(1)-but-not-LALR(1) pattern with n lookahead contexts: S: p_i A s_i | p_i B s_(i+1); A and B have the same body (plain,
+    right- or left-recursive), so the state after the body exists in n pairwise un-mergeable copies (round-3 seeded change C05-e: only the
+    first other same-kernel state was tried before splitting)."""
+    out = []
+    for n in (2, 3, 4):
+        for rec in ("none", "right", "left", "nested"):
+            prods = []
+            for i in range(n):
+                prods.append(("S", ("p%d" % i, "A", "s%d" % i)))
+                prods.append(("S", ("p%d" % i, "B", "s%d" % ((i + 1) % n))))
+            for X in ("A", "B"):
+                prods.append((X, ("c",)))
+                if rec == "right":
+                    prods.append((X, ("c", X)))
+                elif rec == "left":
+                    prods.append((X, (X, "c")))
+                elif rec == "nested":
+                    prods.append((X, ("c", X, "c")))
+            tn = ["p%d" % i for i in range(n)] + ["s%d" % i for i in range(n)] + ["c"]
+            out.append({"prods": prods, "terms": [(t, "str", t) for t in tn]})
+    return out
+
+
 LEXSEQ_POOL = [("a", "str", "a"), ("aa", "str", "aa"), ("aaa", "str", "aaa"), ("ap", "re", "a+"), ("b", "str", "b"), ("ab", "str", "ab"), ("abq", "re", "ab?")]
 
 
